@@ -15,6 +15,11 @@ use vfs::{EmbeddedFS, PhysicalFS, VfsPath};
 #[folder = "fixtures/embedded"]
 pub struct Fixture;
 
+/// a SECOND embedded folder in the same process: every embed type has its own content
+#[derive(RustEmbed, Debug)]
+#[folder = "fixtures/embedded2"]
+pub struct Fixture2;
+
 fn observe(root: &VfsPath, p: &str) -> String {
     let on = |f: &dyn Fn(&VfsPath) -> vfs::VfsResult<String>| -> String {
         match guarded(|| {
@@ -82,6 +87,27 @@ pub fn run(o: &Opts) -> Report {
         paths.insert(format!("{}/below/more", p));
     }
     let paths: Vec<String> = paths.into_iter().collect();
+    // the second embed type, constructed AFTER the first (and the first once more after it): each shows
+    // exactly its own folder
+    {
+        let dir2 = concat!(env!("CARGO_MANIFEST_DIR"), "/fixtures/embedded2");
+        let emb2 = VfsPath::new(EmbeddedFS::<Fixture2>::new());
+        let emb1_again = VfsPath::new(EmbeddedFS::<Fixture>::new());
+        let phys2 = VfsPath::new(PhysicalFS::new(dir2));
+        for p in ["", "/d.txt", "/x", "/x/y.txt", "/x/deep", "/x/deep/z.bin", "/a", "/a.txt", "/c", "/zz"] {
+            rep.evaluations += 1;
+            let (e2, p2) = (observe(&emb2, p), observe(&phys2, p));
+            if e2 != p2 {
+                rep.fail(Fail { oracle: "prop".into(), signature: "embedded:second-type:differs-from-folder".into(), what: format!("second embed type, {:?}: EmbeddedFS shows {} but its folder has {}", p, e2, p2), script: vec![], impl_out: e2.clone(), model_out: p2.clone() });
+                break;
+            }
+            let (e1, p1) = (observe(&emb1_again, p), observe(&phys, p));
+            if e1 != p1 {
+                rep.fail(Fail { oracle: "prop".into(), signature: "embedded:first-type-after-second:differs-from-folder".into(), what: format!("first embed type constructed again after the second, {:?}: EmbeddedFS shows {} but its folder has {}", p, e1, p1), script: vec![], impl_out: e1.clone(), model_out: p1.clone() });
+                break;
+            }
+        }
+    }
     // model configuration
     let mut lines: Vec<String> = vec!["reset".into()];
     lines.push(format!("fs 0 emb {}", files.iter().map(|(f, b)| format!("{}:{}", enc_str(f), enc_bytes(b))).collect::<Vec<_>>().join(" ")));
